@@ -390,25 +390,7 @@ func runC11(p *core.Prog, r *core.Report, tier string) {
 
 	// ---- (j) one recipient's failure does not reach the others: no context shared by the fan-out members
 	// is cancelled on the first failure (errgroup.WithContext) ----
-	nEg := 0
-	for _, rel := range []string{"services/blockrelay/standard", "services/proposalpreparer/standard"} {
-		for _, f := range p.FuncsIn(rel) {
-			for _, ci := range core.Calls(f, func(c *ssa.CallCommon) bool { return strings.HasSuffix(core.CalleeName(c), "errgroup.WithContext") }) {
-				call, ok := ci.(*ssa.Call)
-				if !ok {
-					continue
-				}
-				ex := core.ExtractOf(call, 1)
-				used := ex != nil && ex.Referrers() != nil && len(*ex.Referrers()) > 0
-				nEg++
-				r.Check(!used, "C11.j", fmt.Sprintf("%s|fail-fast-context#%d", core.FnKey(f), nEg), p.Pos(ci.Pos()), "the group's fail-fast context is not used",
-					"the recipients of this fan-out run under the context of errgroup.WithContext, which is cancelled as soon as one of them fails: a failing relay or beacon node aborts the registrations/preparations still in flight to the others")
-			}
-		}
-	}
-	if nEg == 0 {
-		r.Hold("C11.j", "no-fail-fast-context", "", "no fan-out of registrations or preparations runs under an errgroup context")
-	}
+	checkNoFailFastContext(p, r, "C11.j", []string{"services/blockrelay/standard", "services/proposalpreparer/standard"}, "a failing relay or beacon node aborts the registrations/preparations still in flight to the others")
 
 	// ---- (f) preparations ----
 	nPrep := 0
@@ -511,4 +493,37 @@ func mapUpdatesOnParamOrLocal(f *ssa.Function) []*ssa.MapUpdate {
 		}
 	})
 	return out
+}
+
+// checkNoFailFastContext: in the given packages (prefixes) the context returned by errgroup.WithContext — which is
+// cancelled as soon as one member of the group fails — is not used: the members of a fan-out do not take each
+// other down.
+func checkNoFailFastContext(p *core.Prog, r *core.Report, rule string, rels []string, consequence string) {
+	nEg := 0
+	for _, f := range p.SrcFuncs() {
+		rel := core.RelPkg(f.Pkg.Pkg.Path())
+		in := false
+		for _, x := range rels {
+			if rel == x || strings.HasPrefix(rel, x) {
+				in = true
+			}
+		}
+		if !in {
+			continue
+		}
+		for _, ci := range core.Calls(f, func(c *ssa.CallCommon) bool { return strings.HasSuffix(core.CalleeName(c), "errgroup.WithContext") }) {
+			call, ok := ci.(*ssa.Call)
+			if !ok {
+				continue
+			}
+			ex := core.ExtractOf(call, 1)
+			used := ex != nil && ex.Referrers() != nil && len(*ex.Referrers()) > 0
+			nEg++
+			r.Check(!used, rule, fmt.Sprintf("%s|fail-fast-context#%d", core.FnKey(f), nEg), p.Pos(ci.Pos()), "the group's fail-fast context is not used",
+				"the members of this fan-out run under the context of errgroup.WithContext, which is cancelled as soon as one of them fails: "+consequence)
+		}
+	}
+	if nEg == 0 {
+		r.Hold(rule, "no-fail-fast-context", "", "no fan-out in "+strings.Join(rels, ", ")+" runs under an errgroup context")
+	}
 }
